@@ -49,14 +49,16 @@ AllKindsX == AllKinds \cup {"topchoice"}
 \* twin # "none": the root base lives in the imported namespace AND the near namespace has a type of the same name
 \* (other members); a near type extends the near one - with the prefix t: or, the near namespace being the default one,
 \* without a prefix - before the chain's first derived type extends the imported one; the near twin is declared last
-Space == {x \in {[depth |-> d, own |-> o, order |-> ord, loc |-> lc, homonym |-> h, user |-> u, rec |-> r, twin |-> tw] :
-            d \in 1..MaxDepth, o \in [1..4 -> Kinds], ord \in {"base_first", "derived_first"},
-            lc \in {"near", "far"}, h \in {"none", "before", "after"}, u \in {"none", "ref_first"}, r \in {"none", "tree"},
-            tw \in {"none", "prefixed", "default"}} :
-            /\ x.user = "ref_first" => (x.homonym # "none" /\ x.own[1] = "seqattrs" /\ x.own[2] \in {"seq", "attrs"})
-            /\ x.rec = "tree" => (x.loc = "near" /\ x.homonym = "none" /\ x.user = "none" /\ x.own[1] \in {"seq", "seqattrs"})
-            /\ x.twin # "none" => (x.loc = "far" /\ x.homonym = "none" /\ x.user = "none" /\ x.rec = "none" /\ x.own[1] \in {"seq", "seqattrs"}
-                                   /\ x.own[2] \in {"seq", "empty"})}
+Orders == {"base_first", "derived_first"}
+Space ==
+  {x \in {[depth |-> d, own |-> o, order |-> ord, loc |-> lc, homonym |-> h, user |-> u, rec |-> "none", twin |-> "none"] :
+            d \in 1..MaxDepth, o \in [1..4 -> Kinds], ord \in Orders, lc \in {"near", "far"}, h \in {"none", "before", "after"}, u \in {"none", "ref_first"}} :
+     x.user = "ref_first" => (x.homonym # "none" /\ x.own[1] = "seqattrs" /\ x.own[2] \in {"seq", "attrs"})}
+  \cup {x \in {[depth |-> d, own |-> o, order |-> ord, loc |-> "near", homonym |-> "none", user |-> "none", rec |-> "tree", twin |-> "none"] :
+            d \in 1..MaxDepth, o \in [1..4 -> Kinds], ord \in Orders} : x.own[1] \in {"seq", "seqattrs"}}
+  \cup {x \in {[depth |-> d, own |-> o, order |-> ord, loc |-> "far", homonym |-> "none", user |-> "none", rec |-> "none", twin |-> tw] :
+            d \in 1..MaxDepth, o \in [1..4 -> Kinds], ord \in Orders, tw \in {"prefixed", "default"}} :
+            x.own[1] \in {"seq", "seqattrs"} /\ x.own[2] \in {"seq", "empty"}}
 \* only the first depth+1 entries of `own` matter: normalise the rest
 Norm(x) == [x EXCEPT !.own = [i \in 1..4 |-> IF i <= x.depth + 1 THEN x.own[i] ELSE "empty"]]
 Cases == {Norm(x) : x \in Space}
